@@ -22,7 +22,8 @@ CONSTANTS CRT,        \* connect_retry_time              (ticks)
           PEERHOLDS,  \* hold times a peer OPEN may carry (seconds)
           TICKNUM, TICKDEN,  \* one tick = TICKNUM/TICKDEN seconds
           CNTCAP,     \* message counters saturate here (0 = counters not modelled)
-          MSGS        \* names of the peer message shapes in the alphabet
+          MSGS,       \* names of the peer message shapes in the alphabet
+          RESTS       \* REST requests in the alphabet: subset of {"SEND_UPDATE", "SEND_RR", "READ_STATE", "BADCRED_STOP", "BADCRED_SEND"}
 
 Off == 9999
 Timers == {"cr", "hold", "ka", "idle"}
@@ -282,9 +283,17 @@ TimerFires(t) == /\ s.tm[t] = 0 /\ s' = GC(Fire(Clr(s), t)) /\ ev' = E("fire", 0
 Stop == s.booted /\ s' = GC(ManualStop(Clr(s))) /\ ev' = E("stop", 0, "", 0, "")
 Start == s.booted /\ s' = GC(ManualStart(Clr(s))) /\ ev' = E("start", 0, "", 0, "")
 
+\* REST requests other than manual-stop/-start (api/v1.py, api/utils.py): sending is gated on Established and writes one
+\* message to the tracked connection; reading, and anything without valid credentials, changes nothing
+Rest(kind) ==
+   /\ s.booted /\ kind \in RESTS
+   /\ s' = GC(CASE kind = "SEND_UPDATE" /\ s.st = "ESTABLISHED" -> SendOn(Clr(s), "UPDATE", 0, 0, "U")
+               [] kind = "SEND_RR" /\ s.st = "ESTABLISHED" -> SendOn(Clr(s), "RR", 0, 0, "R")
+               [] OTHER -> Clr(s))
+   /\ ev' = E("rest", 0, kind, 0, "")
 Net == \E c \in ConnIds : ConnSucceeds(c) \/ ConnRefused(c) \/ ConnLost(c) \/ TcpTimeout(c) \/ \E m \in Msgs : PeerSends(c, m)
 Time == Tick \/ \E t \in Timers : TimerFires(t)
-Next == Boot \/ Net \/ Time \/ Stop \/ Start
+Next == Boot \/ Net \/ Time \/ Stop \/ Start \/ \E k \in RESTS : Rest(k)
 Spec == Init /\ [][Next]_vars
 
 ------------------------------------------------------------------------------
